@@ -46,6 +46,7 @@ def scene_set():
         ('modes', D({'h': 1000., 'n': 60, 'pattern': 'modes:125:125'}, {'h': 12000., 'n': 20, 'pattern': 'bimodal400'}, T=60)),
         ('2c-near', D({'h': 1000., 'n': 40, 'pattern': 'rampup'}, {'h': 3000., 'n': 39, 'ceilo': 0}, {'h': 3000., 'n': 40, 'ceilo': 1}, ceilos=['a', 'b'], ceilo_offsets=[0., 30.])),
         ('overlap', D({'h': 1000., 'n': 40, 'pattern': 'rampup'}, {'h': 1210., 'n': 40, 'pattern': 'rampup'}, {'h': 1500., 'n': 12, 'pattern': 'jitter', 'where': 'spread'})),
+        ('aic-bic', {'gen': 'lcgbimodal', 'args': list(scenes.WAIC[1])}),
         ('geneva-unstable', {'gen': 'witness', 'name': 'Geneva_2019.01.10-04.45.34_FEW040-BKN070'}),
         ('kloten', {'gen': 'witness', 'name': 'Kloten_2020.12.24-01.20.00_FEW018-BKN051'}),
     ]
@@ -56,7 +57,7 @@ CONTEXT = {'MSA_HIT_BUFFER': {'MSA': 2000}}
 
 
 def bound(tier):
-    return '%d deviations (d<=1) x 10 scenes x 5 routes; trip-wire: %d configurations x 10 scenes; reset: %s' % (
+    return '%d deviations (d<=1) x 11 scenes x 5 routes; trip-wire: %d configurations x 11 scenes; reset: %s' % (
         len(params.deviations()), len(params.deviations()) + 4,
         'subsets of size <=2 and >=12 of 14 names' if tier == 'quick' else 'all 16 384 subsets of 14 names')
 
@@ -149,8 +150,8 @@ def run_case(case):
             sens = 0
             heavy = dev.startswith(('LAYERING_PRMS', 'GROUPING_PRMS', 'gmm:', 'LOWESS')) or case.get('tier') != 'quick'
             for sname, spec in scene_set():
-                if spec.get('gen') == 'witness' and not heavy:
-                    continue
+                if spec.get('gen') == 'witness' and (not heavy or dev.startswith('SLICING_PRMS.distance_threshold=1e-06')):
+                    continue        # (one slice per hit on a 400-hit scene takes minutes per run; covered on the deck scenes)
                 rows = scenes.build(spec)
                 ref = run_digest(rows, None); res['n'] += 1
                 if case['route'] == 'global':
